@@ -315,7 +315,13 @@ package dagsync
 // CID and this publisher, the CID is un-cached once so that it may be announced again, and no latest
 // sync is recorded; on success exactly one success notification after the peer store was updated.
 //@ func (*handler).asyncSyncAdChain
-//@   property C04 C08 C01 C14
+//@   property C04 C08 C01 C14 C15
+// C15: an announce-triggered sync runs under the context it is given - the one the watcher cancels when
+// the subscriber closes (only the CID-schema value is added to it): head query, sync and all
+//@   ghost gctx := zero("context.Context")
+//@   at call CtxWithCidSchema: assert arg0 == old(ctx)
+//@   at call CtxWithCidSchema: after ghost gctx := result0
+//@   at call handle: assert arg1 == gctx
 //@   requires h != nil && subOK(h.subscriber) && ctx != nil && !held(h.syncMutex) && !held(h.subscriber.scopedBlockHookMutex) && !closed(h.subscriber.inEvents)
 //@   requires h.subscriber.receiver != nil ==> !held(h.subscriber.receiver.announceMutex)
 //@   requires hOK(h) && !held(h.subscriber.ipniSync.clientHostMutex)
